@@ -82,8 +82,8 @@ and per effect, on normal return from a world satisfying `WInv`, exact conservat
 `cdrops' = dropLog w … ++ cdrops`, none lost by the pairing); what is missing is the typed whole-history glue: a
 predicate `∃ τ : serial → type, (every stored / queued / logged serial sits at a position of type τ s) ∧ (every
 `s < nextCSerial` with `compNeedsDrop (τ s)` is stored, queued or logged)`, pushed — together with `WInvMid`, hence on
-`ReachP` histories and under `Small` only — through the same 75 functions.  No counterexample to it was found: the
-kernel-evaluated histories below, and every history the correspondence check has run, conserve.
+`ReachP` histories and under `Small` only — through the same 75 functions.  No counterexample to it was found
+(`demo_history` conserves: three serials handed out, ledger `3, 2, 1`, nothing stored).
 
 The machinery: `Proofs/CompLedger.lean` (the predicate `CL X w`), `Proofs/CompLedgerStore.lean` (calculus, storage
 primitives), `Proofs/CompLedgerDeliver.lean` (handlers, one delivery, the event loop), `Proofs/CompLedgerOps.lean`
